@@ -206,6 +206,17 @@ pub fn c20_cli(run: &mut Run, tier: Tier) -> CliC20 {
     for bad in [vec!["p3", "circle"], vec!["p2"], vec!["p2", "hexagon"], vec!["p2", "polygon", "--sides", "-1"], vec!["p2", "polygon", "--sides", "0"], vec!["p2", "circle", "--steps", "abc"]].iter() {
         cases.push(CliArgs { group: bad[0].to_string(), shape: bad[1..].iter().map(|s| s.to_string()).collect(), potential: None, replications: 1, opt: vec!["--steps=5".into()] });
     }
+    // settings at zero and beyond the usual: reported or carried out, never a crash
+    for extra in [vec!["--max-step-size=0"], vec!["--max-step-size=3"], vec!["--kt-ratio=0"], vec!["--kt-ratio=1"], vec!["--kt-ratio=2.5"], vec!["--convergence=0"], vec!["--convergence=-1"], vec!["--convergence=1e300"], vec!["--kt-start=inf"], vec!["--kt-finish=0", "--kt-start=0"]].iter() {
+        for (g, shape, pot) in [("p2", vec!["circle"], "Hard"), ("p2mg", vec!["trimer"], "LJ")].iter() {
+            let mut opt: Vec<String> = vec!["--steps=24".into(), "--inner-steps=4".into()];
+            opt.extend(extra.iter().map(|s| s.to_string()));
+            cases.push(CliArgs { group: g.to_string(), shape: shape.iter().map(|s| s.to_string()).collect(), potential: Some(pot.to_string()), replications: 2, opt });
+        }
+    }
+    let n_grid = cases.len();
+    // output locations that cannot be written, or have no parent: an error message, not a crash
+    let odd_outfiles: Vec<String> = vec!["".into(), "/".into(), "/nonexistent-directory/x".into(), scratch_dir().to_string_lossy().to_string(), ".".into(), "..".into()];
     let results = par_map(&cases, |_, c| {
         let r = run_cli(&c.to_vec(), &[]);
         let mut fails: Vec<String> = vec![];
@@ -231,7 +242,21 @@ pub fn c20_cli(run: &mut Run, tier: Tier) -> CliC20 {
         }
         (r.status == Some(0), fails)
     });
-    let mut out = CliC20 { invocations: cases.len() as u64, ok: 0, errors: 0 };
+    let _ = n_grid;
+    for of in odd_outfiles.iter() {
+        let mut cmd = Command::new(repo_bin());
+        cmd.arg("--outfile").arg(of).args(&["--steps=8", "--inner-steps=4", "--replications=1", "p2", "circle"]);
+        cmd.env_remove("RUST_LOG").env("RUST_BACKTRACE", "0").current_dir(scratch_dir());
+        let o = cmd.output().unwrap_or_else(|e| machinery_error(&format!("cannot run the binary: {}", e)));
+        let stderr = String::from_utf8_lossy(&o.stderr).to_string();
+        if stderr.contains("panicked") || o.status.code() == Some(101) || o.status.code().is_none() {
+            let line = stderr.lines().find(|l| l.contains("panicked")).unwrap_or("").to_string();
+            run.fail(None, &format!("--outfile {:?}: the binary panicked (status {:?}): {}", of, o.status.code(), line), json!({"engine": "cli", "args": ["--outfile", of, "--steps=8", "--inner-steps=4", "--replications=1", "p2", "circle"]}));
+        } else if o.status.code() != Some(0) && !(stderr.contains("Error") || stderr.contains("error")) {
+            run.fail(None, &format!("--outfile {:?}: exit status {:?} without an error message", of, o.status.code()), json!({"engine": "cli", "args": ["--outfile", of]}));
+        }
+    }
+    let mut out = CliC20 { invocations: (cases.len() + odd_outfiles.len()) as u64, ok: 0, errors: 0 };
     for (i, (ok, fails)) in results.into_iter().enumerate() {
         if ok {
             out.ok += 1;
